@@ -13,7 +13,7 @@ ID = "C14"
 LEVEL = "exploration"
 RULE = (
     "Exhaustive: all histories up to length L (quick 6, thorough 7) over {create context object 1|2 with valid pair A, valid "
-    "pair B or an invalid pair; enter object k (re-entry while entered allowed); leave the innermost normally / by exception; "
+    "pair B or an invalid pair; enter object k (re-entry while entered allowed); leave the innermost normally / by an Exception / by a BaseException that is not an Exception; "
     "set_config(valid C); set_config(invalid); render}, entries LIFO as `with` allows, checked after the last step of every "
     "history (every prefix is a history of its own) against a stack model: DescriptorFormat.config == model and a fixed "
     "3-level chain renders as the reference predicts. Hypothesis RuleBasedStateMachine: histories up to 40 steps, 3 objects, "
@@ -62,6 +62,10 @@ def ref_render(pair):
 
 class Boom(Exception):
     pass
+
+
+class BaseBoom(BaseException):
+    """Leaving a block through something like KeyboardInterrupt / GeneratorExit: not an Exception subclass."""
 
 
 class Runner:
@@ -123,10 +127,11 @@ class Runner:
             obj, saved = self.stack.pop()
             try:
                 if op[1]:
+                    exc_type = BaseBoom if op[1] == 2 else Boom
                     try:
-                        raise Boom("leave by exception")
-                    except Boom as e:
-                        obj.__exit__(Boom, e, e.__traceback__)
+                        raise exc_type("leave by exception")
+                    except (Boom, BaseBoom) as e:
+                        obj.__exit__(exc_type, e, e.__traceback__)
                     self.flags.add("exceptional-leave")
                 else:
                     obj.__exit__(None, None, None)
@@ -195,6 +200,7 @@ def options(model):
     if depth > 0:
         out.append(("leave", False))
         out.append(("leave", True))
+        out.append(("leave", 2))
     out.append(("set", PAIRS["C"], True))
     out.append(("set", PAIRS["INV2"], False))
     out.append(("render",))
@@ -344,7 +350,7 @@ def make_machine(rec):
             self.do(("enter", k))
 
         @precondition(lambda self: bool(self.r.stack))
-        @rule(exc=st.booleans())
+        @rule(exc=st.sampled_from((False, True, 2)))
         def leave(self, exc):
             self.do(("leave", exc))
 
@@ -398,7 +404,7 @@ def units(tier, seed):
 def run_unit(unit, seed, rec, tier):
     if unit["kind"] == "enum":
         enumerate_histories(unit["maxlen"], unit["shard"], unit["of"], rec)
-        rec.exhaustive.append(f"all histories up to length {unit['maxlen']} over the 13-operation alphabet")
+        rec.exhaustive.append(f"all histories up to length {unit['maxlen']} over the 14-operation alphabet")
         reset()
     else:
         run_machine(rec, make_machine(rec), unit["n"], 40, seed)
